@@ -38,7 +38,7 @@ func main() {
 		&lib.Prop{ID: "C19", Part: "heap", Level: level, NCases: n(1500, 120000), Run: heap, Assumptions: assume,
 			Rule: "Push/Pop/Peek/Fix(after priority change)/Size sequences on ds.Heap with an index assigner; after every op: min equals reference min, every element's assigned index equals its position (checked through Fix of that index being a no-op on order) ; non-trivial = >=1 Fix that moved and >=1 duplicate priority"},
 		&lib.Prop{ID: "C19", Part: "ppq", Level: level, NCases: n(1500, 120000), Run: ppq, Assumptions: assume,
-			Rule: "Push/Pop/Peek/Delete/IsEmpty sequences on ds.PartitionedPriorityQueue over 1..5 in-memory partitions (some staying empty); pops must come in global priority order; non-trivial = >=2 non-empty partitions and >=1 Delete of a partition minimum"},
+			Rule: "Push/Pop/Peek/Delete/IsEmpty sequences on ds.PartitionedPriorityQueue over 1..5 in-memory partitions (some staying empty; half of the queues are built over partitions that already hold items); pops must come in global priority order; non-trivial = >=2 non-empty partitions and >=1 Delete of a partition minimum"},
 		&lib.Prop{ID: "C19", Part: "sortedcache", Level: level, NCases: n(1500, 120000), Run: sortedCache, Assumptions: assume,
 			Rule: "Push(incl. duplicates)/Pop/PopLast/Delete/Peek/IsEmpty/IsFull sequences on ds.SortedCache with max size 1..40 bytes; IsFull must equal (sum of lengths of contents >= max); non-trivial = >=1 duplicate push and >=1 IsFull flip"},
 		&lib.Prop{ID: "C19", Part: "set", Level: level, NCases: n(1500, 120000), Run: set, Assumptions: assume,
@@ -46,7 +46,7 @@ func main() {
 		&lib.Prop{ID: "C19", Part: "sortedmap", Level: level, NCases: n(1500, 120000), Run: sortedMap, Assumptions: assume,
 			Rule: "Set/Get/Has/Delete/Keys/Values/All/Size on ds.SortedMap[string,int] versus a sorted slice; non-trivial = >=1 overwrite and >=1 delete of a present key"},
 		&lib.Prop{ID: "C19", Part: "merge", Level: level, NCases: n(1500, 120000), Run: merge, Assumptions: assume,
-			Rule: "mergesort.Merge (dedupe by key, pick highest version) and iteru.MergeSorted (keep duplicates) over 0..6 sorted inputs (some empty, shared keys) versus sort+dedupe of the concatenation, full consumption and early break; non-trivial = a key present in >=2 inputs"},
+			Rule: "mergesort.Merge (dedupe by key, pick highest version) and iteru.MergeSorted (keep duplicates) over 0..6 sorted inputs (some empty, shared keys, several versions of a key inside one input) versus sort+dedupe of the concatenation, full consumption and early break; non-trivial = a key present in >=2 inputs"},
 		&lib.Prop{ID: "C19", Part: "searchunique", Level: level, NCases: n(1, 1), Run: searchUniqueExhaustive, Assumptions: assume,
 			Rule: "sliceu.SearchUnique: EXHAUSTIVE over slice lengths 0..12, every present position and every absent gap (before, between, after); result must be (index,true) for present and (_,false) for absent"},
 		&lib.Prop{ID: "C19", Part: "searchunique-rand", Level: level, NCases: n(500, 40000), Run: searchUniqueRandom, Assumptions: assume,
@@ -331,13 +331,41 @@ func ppq(c *lib.Ctx) {
 	for i := range parts {
 		parts[i] = &memPart{}
 	}
-	// values v belong to partition v % np; priorities are the values themselves
-	q := ds.NewPartitionedPriorityQueue(parts, func(a, b int) int { return cmp.Compare(a, b) }, func(v int) int { return v % np })
 	var ref []int
 	var ops []string
+	used := map[int]bool{}
+	// half of the queues are built over partitions that already hold items (a timer store opened on a restored
+	// database), some of them over a single non-empty partition at a seeded position
+	if np > 0 && r.Intn(2) == 0 {
+		only := -1
+		if r.Intn(3) == 0 {
+			only = r.Intn(np)
+		}
+		for k := r.Intn(12); k >= 0; k-- {
+			v := r.Intn(40)
+			if only >= 0 {
+				v = v/np*np + only
+			}
+			if !slices.Contains(ref, v) {
+				ref = append(ref, v)
+				mp := parts[v%np].(*memPart)
+				mp.items = append(mp.items, v)
+				used[v%np] = true
+			}
+		}
+		ops = append(ops, fmt.Sprintf("built over %v", sorted(ref)))
+		c.Feat("built_over_populated_partitions", 1)
+	}
+	// values v belong to partition v % np; priorities are the values themselves
+	q := ds.NewPartitionedPriorityQueue(parts, func(a, b int) int { return cmp.Compare(a, b) }, func(v int) int { return v % np })
+	if q.IsEmpty() != (len(ref) == 0) {
+		c.Fail("ppq-empty", ops, "new queue: IsEmpty=%v, reference elements %v", q.IsEmpty(), sorted(ref))
+	}
+	if got, ok := q.Peek(); ok != (len(ref) > 0) || (ok && got != slices.Min(ref)) {
+		c.Fail("ppq-peek", ops, "new queue: Peek = (%d,%v), reference elements %v", got, ok, sorted(ref))
+	}
 	nops := 5 + r.Intn(56)
 	delMin := 0
-	used := map[int]bool{}
 	for i := 0; i < nops; i++ {
 		switch x := r.Intn(10); {
 		case np > 0 && (x < 4 || len(ref) == 0 && x < 6):
@@ -703,11 +731,18 @@ func merge(c *lib.Ctx) {
 		}
 		for _, k := range keys {
 			if r.Intn(2) == 0 {
-				ver++
-				inputs[i] = append(inputs[i], &ment{string(k), 0, i})
-				count[string(k)]++
-				if count[string(k)] >= 2 {
-					shared = true
+				// one input may hold several versions of a key next to each other (also when it is the only input)
+				reps := 1
+				if r.Intn(4) == 0 {
+					reps = 2 + r.Intn(2)
+				}
+				for ; reps > 0; reps-- {
+					ver++
+					inputs[i] = append(inputs[i], &ment{string(k), 0, i})
+					count[string(k)]++
+					if count[string(k)] >= 2 {
+						shared = true
+					}
 				}
 			}
 		}
